@@ -343,16 +343,22 @@ func VerifCheck_icase() {
 		verifReach("nomatch")
 	}
 	verifAssert("invariant-under-text-case", verifEqInts(pos(m1), pos(m2)))
-	// the string entry points (raw-string prefix filters, ASCII ignore-case searches) see the same
-	b1, err := verifREs[0].MatchString(string(t))
-	if err != nil {
-		verifFail("error", err.Error())
+	// the string entry points see the same. They differ from the rune entry points only by the UTF-8
+	// decoding (case-blind, C02/C08) unless the program has a raw-string prefix filter (ASCII ignore-case
+	// searches on the undecoded string): the string leg runs for exactly those programs, so that the
+	// encode/decode forks (4 width classes per rune) are not paid by every unit.
+	if verifREs[0].stringPrefixFilter != nil {
+		verifReach("string-leg")
+		b1, err := verifREs[0].MatchString(string(t))
+		if err != nil {
+			verifFail("error", err.Error())
+		}
+		b2, err := verifREs[0].MatchString(string(t2))
+		if err != nil {
+			verifFail("error", err.Error())
+		}
+		verifAssert("MatchString-invariant-under-text-case", b1 == b2 && b1 == (m1 != nil))
 	}
-	b2, err := verifREs[0].MatchString(string(t2))
-	if err != nil {
-		verifFail("error", err.Error())
-	}
-	verifAssert("MatchString-invariant-under-text-case", b1 == b2 && b1 == (m1 != nil))
 	if len(verifREs) > 1 {
 		m3, err := verifREs[1].FindRunesMatch(t)
 		if err != nil {
